@@ -109,6 +109,13 @@ CHECKS = {
          "assignment operator in update / update_ff on whole signals, list elements, slices, fields. elaborate() must raise the class the analysis predicts, or nothing.",
          "Trusted: c09.analyze (per-bit driver sets, net source propagation, port-direction table). Designs with several simultaneous defects are not generated.",
          "DESIGN.md 6.C09", "E1 E2"),
+ "C18": ("model_checking",
+         "exhaustive request streams x port splits x timing configurations x stall-oracle schedules (deviation bounded) on the real memories; linearizability vs a byte-level reference by brute-force interleaving search",
+         "MagicMemoryCL (1-2 ports) and the stream MagicMemoryRTL are driven by scripted sources/sinks: every stream of <= 2 requests (3 over a collision sub-alphabet) from an 18-letter alphabet "
+         "(word / half / byte / 3-byte / unaligned writes and reads on overlapping addresses, all nine AMOs on a word with bit 31 set), every 2-port split over the collision alphabet, "
+         "7 (60) timing configurations incl. long back-pressure, stall oracle with deviation bound 1 (2). Responses and the final image must equal some real-time-consistent sequential execution.",
+         "Trusted: vt/memref.py and the interleaving search. MagicMemoryFL is exercised only through the CL/stream wrappers; sub-word AMOs are outside the alphabet.",
+         "DESIGN.md 6.C18", "E1 E4"),
 }
 
 NOT_YET = {}
